@@ -1,6 +1,7 @@
 """C06 — can_apply_to implies apply_to works; the applicability check is pure; node search is exact."""
 from . import audit as A
 from . import engine as E
+from . import exact as X
 from . import gen as G
 from .runner import hyp_run
 
@@ -92,7 +93,67 @@ def check_tree(ctx, case):
                 return ctx.fail(("apply-result-type", name, ap.arrangement), case, {"tree": text, "node": E.text_of(n), "result": repr(ap.result)})
 
 
+def check_inplace(ctx, case):
+    """'The same answer for the same tree' along an IN-PLACE sequence: one set of long-lived rule objects is asked about
+    every node before every step (a move mask), a rewrite is applied in place (node objects and ids survive), and after every
+    step each long-lived object must answer exactly like a newly constructed rule on every node - and applying where it says
+    yes must not raise."""
+    from mathy_core.expressions import MathExpression
+
+    root = E.parse(case["text"])
+    if root is None or X.has_nonfinite(root) or E.has_huge_constant(root):
+        return
+    rules = E.rule_instances()
+    ctx.count("inplace:walks")
+    for stepno, (ri, ni) in enumerate(case["steps"] + [[0, 0]]):
+        nodes = A.inorder(root)
+        text = E.text_of(root)
+        fresh = dict(E.rule_instances())
+        mask = {}
+        for name, rule in rules:
+            ctx.count("tree_rule_pairs")
+            for n in nodes:
+                try:
+                    a1 = rule.can_apply_to(n)
+                except Exception as e:
+                    return ctx.fail(("can_apply_to-raised", name) + E.exc_site(e), case, {"tree": text, "node": E.text_of(n), "error": repr(e), "mode": "in place"})
+                try:
+                    a3 = fresh[name].can_apply_to(n)
+                except Exception:
+                    a3 = a1
+                if a1 != a3:
+                    return ctx.fail(("can_apply_to-depends-on-history", name), case, {"tree": text, "node": E.text_of(n), "long_lived_instance": a1, "fresh_instance": a3, "after_steps": stepno, "mode": "in place"})
+                if a1:
+                    mask.setdefault(name, []).append(n)
+        if stepno == len(case["steps"]):
+            break
+        name, rule = rules[ri % len(rules)]
+        cands = mask.get(name)
+        if not cands:
+            continue
+        n = cands[ni % len(cands)]
+        arrangement = E.arrangement(rule, n)
+        try:
+            res = rule.apply_to(n).result
+        except Exception as e:
+            return ctx.fail(("apply-raised", name, arrangement) + E.exc_site(e), case, {"tree": text, "node": E.text_of(n), "error": repr(e), "after_steps": stepno, "mode": "in place"})
+        ctx.count("applications")
+        if not isinstance(res, MathExpression):
+            return ctx.fail(("apply-result-type", name, arrangement), case, {"tree": text, "node": E.text_of(n), "result": repr(res)})
+        try:
+            root = E._root(res)
+        except RuntimeError:
+            return
+        if A.audit(root) is not None or X.has_nonfinite(root) or E.has_huge_constant(root):
+            ctx.count("inplace:stopped(malformed/nonfinite/huge)")
+            return
+        if stepno >= 1:
+            ctx.nontriv(("inplace", case["text"], repr(case["steps"][: stepno + 1])))
+
+
 def replay(ctx, case):
+    if "steps" in case:
+        return check_inplace(ctx, case)
     check_tree(ctx, case)
 
 
@@ -126,3 +187,14 @@ def run(ctx):
         check_tree(ctx, {"text": t, "pre": []})
     ctx.info["small_expressions_exhaustive"] = f"{len(small)} expressions with <= {2 if ctx.tier == 'quick' else 3} binary operators over leaves x y 2 -1 0 0.5"
     hyp_run(ctx, "g-tree", G.tree_case(12 if ctx.tier == "quick" else 24), check_tree, ctx.n(4000, 20000))
+    # in-place sequences with long-lived rule objects (deterministic starts from the template sweep, then drawn ones)
+    istep = 8 if ctx.tier == "quick" else 1
+    for i, t in enumerate(texts):
+        if i % istep != ctx.seed % istep or (i // istep) % ctx.nshards != ctx.shard:
+            continue
+        ctx.count("evaluations")
+        check_inplace(ctx, {"text": t, "steps": [[(i + 3 * k) % 11, i + k] for k in range(5)]})
+    from hypothesis import strategies as st
+
+    walk = st.builds(lambda t, steps: {"text": t, "steps": steps}, G.tree_text(12), st.lists(st.tuples(st.integers(0, 10), st.integers(0, 40)).map(list), min_size=2, max_size=6))
+    hyp_run(ctx, "in-place", walk, check_inplace, ctx.n(600, 5000))
